@@ -53,7 +53,7 @@ var editKinds = []string{
 	"remove-service", "remove-method", "add-required-field", "optional-to-required", "change-field-type",
 	// compatible
 	"add-optional-field", "add-method", "add-service", "add-type", "add-const", "delete-struct", "reorder-defs", "reorder-fields",
-	"change-default", "rename-field", "required-to-optional", "add-include", "add-file", "delete-file",
+	"change-default", "rename-field", "required-to-optional", "add-include", "add-file", "delete-file", "add-required-field-with-default",
 }
 
 func (p *Program) structs(f *File) []*Def {
@@ -119,6 +119,17 @@ func (p *Program) ApplyEdit(hasAddFile, hasDelFile bool) *Edit {
 		name := s.Funcs[i].Name
 		s.Funcs = append(s.Funcs[:i:i], s.Funcs[i+1:]...)
 		return &Edit{kind, true, fmt.Sprintf("method %s of %s in %s", name, s.Name, f.RelPath())}
+	case "add-required-field-with-default":
+		// marked required but carrying a default: not required in effect, hence compatible
+		ss := p.structs(f)
+		if len(ss) == 0 {
+			return nil
+		}
+		s := ss[ch("edit.pick", len(ss))]
+		id := nextID(s.Fields)
+		fd := &FieldDef{ID: id, Name: fmt.Sprintf("addeddef%d", id), Type: &TypeRef{Base: "i32"}, Req: ReqRequired, Default: &ConstVal{Kind: CInt, Int: int64(id)}}
+		s.Fields = append(s.Fields, fd)
+		return &Edit{kind, false, fmt.Sprintf("field %s of %s in %s", fd.Name, s.Name, f.RelPath())}
 	case "add-required-field", "add-optional-field":
 		ss := p.structs(f)
 		if len(ss) == 0 {
